@@ -1784,13 +1784,24 @@ class SpaceUpdater(SharedSpaceOperations):
             if conflict:
                 raise NameError("name conflict: %s" % conflict)
 
-        self._instructions.append(
-            Instruction(self._update_derived_space, (node,)))
-        for _,  v in nx.edge_dfs(self._graph, node):
+        affected = [node] + [v for _, v in nx.edge_dfs(self._graph, node)]
+        for n in affected:
             self._instructions.append(
-                Instruction(self._update_derived_space, (v,)))
+                Instruction(self._update_derived_space, (n,)))
 
-        self._instructions.execute()
+        try:
+            self._instructions.execute()
+        except BaseException:
+            # Re-derive the affected spaces from the unchanged graph,
+            # so that the rejected edit changes nothing.
+            self._graph = self.manager._graph
+            self._instructions.clear()
+            for n in affected:
+                self._instructions.append(
+                    Instruction(self._update_derived_space, (n,)))
+            self._instructions.execute()
+            raise
+
         self._update_manager()
 
     def remove_bases(self, space, bases):
